@@ -508,3 +508,65 @@ mod tests {
         quickcheck(prop as fn(_))
     }
 }
+
+/// Verification hooks (compiled only with `--cfg libp2p_verif`): a public mirror of the
+/// crate-private [`Message`] and wrappers around its real `encode` / `decode`.
+#[cfg(libp2p_verif)]
+pub mod verif_hooks {
+    use super::*;
+
+    #[derive(Clone, Debug, PartialEq, Eq)]
+    pub enum MessageRepr {
+        Header,
+        Protocol(String),
+        ListProtocols,
+        Protocols(Vec<String>),
+        NotAvailable,
+    }
+
+    /// Why a byte string was not accepted as a message.
+    #[derive(Clone, Copy, Debug, PartialEq, Eq)]
+    pub enum DecodeFailure {
+        InvalidMessage,
+        InvalidProtocol,
+        TooManyProtocols,
+        Other,
+    }
+
+    /// `Message::encode` of the given message (protocol names must start with `/`).
+    pub fn encode(m: &MessageRepr) -> Option<Vec<u8>> {
+        let msg = match m {
+            MessageRepr::Header => Message::Header(HeaderLine::V1),
+            MessageRepr::Protocol(p) => Message::Protocol(Protocol::try_from(p.as_str()).ok()?),
+            MessageRepr::ListProtocols => Message::ListProtocols,
+            MessageRepr::Protocols(ps) => {
+                let mut v = Vec::with_capacity(ps.len());
+                for p in ps {
+                    v.push(Protocol::try_from(p.as_str()).ok()?);
+                }
+                Message::Protocols(v)
+            }
+            MessageRepr::NotAvailable => Message::NotAvailable,
+        };
+        let mut dest = BytesMut::new();
+        msg.encode(&mut dest);
+        Some(dest.to_vec())
+    }
+
+    /// `Message::decode` of one frame payload.
+    pub fn decode(frame: &[u8]) -> Result<MessageRepr, DecodeFailure> {
+        match Message::decode(Bytes::copy_from_slice(frame)) {
+            Ok(Message::Header(HeaderLine::V1)) => Ok(MessageRepr::Header),
+            Ok(Message::Protocol(p)) => Ok(MessageRepr::Protocol(p.0)),
+            Ok(Message::ListProtocols) => Ok(MessageRepr::ListProtocols),
+            Ok(Message::Protocols(ps)) => {
+                Ok(MessageRepr::Protocols(ps.into_iter().map(|p| p.0).collect()))
+            }
+            Ok(Message::NotAvailable) => Ok(MessageRepr::NotAvailable),
+            Err(ProtocolError::InvalidMessage) => Err(DecodeFailure::InvalidMessage),
+            Err(ProtocolError::InvalidProtocol) => Err(DecodeFailure::InvalidProtocol),
+            Err(ProtocolError::TooManyProtocols) => Err(DecodeFailure::TooManyProtocols),
+            Err(_) => Err(DecodeFailure::Other),
+        }
+    }
+}
